@@ -7,6 +7,7 @@
 #include <unistd.h>
 #include <errno.h>
 #include <signal.h>
+#include <sched.h>
 #include <fcntl.h>
 #include <poll.h>
 #include <time.h>
@@ -258,6 +259,14 @@ static void flushWorker(bool truncated)
 	g_agg.clear();
 }
 
+static void workerCrashWriter(const char* key)
+{
+	static char line[256];
+	int n = snprintf(line, sizeof line, "H %ld %d\tcrash\t%s\tfatal signal inside a simulated run\n", g_curJob, g_curPilot ? 1 : 0, key);
+	if (g_resultFd >= 0 && n > 0)
+		(void)!write(g_resultFd, line, (size_t)n);
+}
+
 static void workerHardHandler(const char* cls, const char* key, const char* msg)
 {
 	hardHandler(cls, key, msg);
@@ -267,6 +276,7 @@ static void workerHardHandler(const char* cls, const char* key, const char* msg)
 static void workerMain(const std::vector<Job>& jobs, int w, int W, long startJob, int tier, double deadline, const std::string& sigPath)
 {
 	setHardFailHandler(workerHardHandler);
+	setCrashWriter(workerCrashWriter);
 	installCrashHandlers();
 	armSanitizer();
 	std::map<std::string, Agg>& agg = g_agg;
@@ -284,6 +294,7 @@ static void workerMain(const std::vector<Job>& jobs, int w, int W, long startJob
 		}
 		g_curJob = j;
 		g_cur[w] = j;
+		g_cur[64 + w]++;
 		const Scenario* sc = jobs[j].sc;
 		RunResult res;
 		Plan plan;
@@ -387,6 +398,17 @@ static void isoHardHandler(const char* cls, const char* key, const char* msg)
 	writeAll(g_isoFd, j.str() + "\n");
 }
 
+static void isoCrashWriter(const char* key)
+{
+	static char buf[1 << 20];
+	int n = snprintf(buf, sizeof buf, "{\"failures\":[{\"cls\":\"crash\",\"key\":\"%s\",\"msg\":\"fatal signal inside a simulated run\"}],\"hard\":true,\"hash\":\"0\",\"steps\":%llu,\"decisions\":\"",
+	                 key, (unsigned long long)sim::steps());
+	size_t o = (size_t)n;
+	o += formatDecisions(buf + o, sizeof buf - o - 8);
+	o += (size_t)snprintf(buf + o, sizeof buf - o, "\"}\n");
+	(void)!write(g_isoFd, buf, o);
+}
+
 static IsoResult runIsolated(const Scenario* sc, const Plan& plan, const SchedCfg& cfg, double timeoutS = 30)
 {
 	IsoResult r;
@@ -403,6 +425,7 @@ static IsoResult runIsolated(const Scenario* sc, const Plan& plan, const SchedCf
 		if (!getenv("VERIF_ISO_STDERR"))
 			dup2(nul, 2);
 		setHardFailHandler(isoHardHandler);
+		setCrashWriter(isoCrashWriter);
 		installCrashHandlers();
 		armSanitizer();
 		RunResult res;
@@ -1006,6 +1029,17 @@ int main(int argc, char** argv)
 			close(pfd[0]);
 			g_resultFd = pfd[1];
 			g_workerId = w;
+			if (!getenv("VERIF_NO_PIN"))
+			{
+				// all threads of one worker share one CPU: hand-offs become local context switches
+				long ncpu = sysconf(_SC_NPROCESSORS_ONLN);
+				cpu_set_t cs;
+				CPU_ZERO(&cs);
+				CPU_SET((int)(w % (ncpu > 0 ? ncpu : 1)), &cs);
+				sched_setaffinity(0, sizeof cs, &cs);
+			}
+			else
+				setSpin(200);
 			char lp[512];
 			snprintf(lp, sizeof lp, "%s/build/logs/%s.%s.w%d.err", opt.verifDir.c_str(), opt.property.c_str(), VERIF_FLAVOUR, w);
 			int lf = open(lp, O_WRONLY | O_CREAT | O_APPEND, 0666);
@@ -1075,8 +1109,36 @@ int main(int argc, char** argv)
 	};
 
 	int live = W;
+	std::vector<long> lastBeat((size_t)W, -1);
+	std::vector<double> lastBeatAt((size_t)W, wallNow());
+	double hangLimit = 25.0;
 	while (live > 0)
 	{
+		for (int w = 0; w < W; w++)
+			if (!ws[w].done)
+			{
+				long b = g_cur[64 + w];
+				if (b != lastBeat[w])
+				{
+					lastBeat[w] = b;
+					lastBeatAt[w] = wallNow();
+				}
+				else if (wallNow() - lastBeatAt[w] > hangLimit && g_cur[w] >= 0)
+				{
+					// a run that makes no progress in wall-clock time: kill the worker, attribute to its job
+					long cur = g_cur[w];
+					FailRec f;
+					f.scenario = jobs[cur].sc->name;
+					f.idx = jobs[cur].idx;
+					f.hard = true;
+					f.cls = "liveness";
+					f.key = "wall_clock_hang";
+					f.msg = "run made no progress for 25 s of wall-clock time (worker killed)";
+					fails.push_back(f);
+					kill(ws[w].pid, SIGKILL);
+					lastBeatAt[w] = wallNow();
+				}
+			}
 		std::vector<struct pollfd> pfds;
 		std::vector<int> idx;
 		for (int w = 0; w < W; w++)
@@ -1407,7 +1469,11 @@ int main(int argc, char** argv)
 	printf("simcheck[%s] property=%s tier=%s seed=%llu runs=%llu/%zu nontrivial=%llu distinct=%zu violations=%d known=%d wall=%.1fs (%.0f runs/h)%s\n", VERIF_FLAVOUR, opt.property.c_str(),
 	       tier ? "thorough" : "quick", (unsigned long long)opt.seed, (unsigned long long)totalRuns, jobs.size(), (unsigned long long)totalNon, allSigs.size(), violations, knownHits, wall,
 	       searchWall > 0 ? totalRuns / searchWall * 3600.0 : 0.0, truncated ? " [time budget reached]" : "");
+	// a reproduced, replay-gated violation outranks flaky candidates (memory-corrupting code can behave
+	// differently from process to process; that is the code's nondeterminism, not the simulator's)
+	if (violJ.a.size() > 0)
+		return 1;
 	if (harnessBroken)
 		return 2;
-	return violations ? 1 : 0;
+	return 0;
 }
